@@ -93,7 +93,15 @@ func (fr *frame) instr(in ssa.Instruction, st *State) {
 		fr.vals[x] = fr.binop(x.Op, fr.val(x.X, st), fr.val(x.Y, st), x.Type(), st)
 	case *ssa.Store:
 		l := fr.locOf(x.Addr, st)
-		fr.store(st, l, fr.val(x.Val, st))
+		v := fr.val(x.Val, st)
+		if fa, ok := x.Addr.(*ssa.FieldAddr); ok && fr.env0 != nil && s.FC != nil && len(s.FC.Ats) > 0 {
+			if pt, ok := fa.X.Type().Underlying().(*types.Pointer); ok {
+				if stt, ok := pt.Elem().Underlying().(*types.Struct); ok {
+					fr.pseudoAt("fieldwrite."+stt.Field(fa.Field).Name(), x, []TV{fr.val(fa.X, st), v}, st)
+				}
+			}
+		}
+		fr.store(st, l, v)
 	case *ssa.Call:
 		res := fr.call(x.Common(), x, st)
 		fr.vals[x] = res
@@ -767,6 +775,10 @@ func mapFieldName(v ssa.Value) string {
 func (fr *frame) pseudoAt(key string, site ssa.Instruction, args []TV, st *State) {
 	s := fr.s
 	if fr.env0 == nil || s.FC == nil {
+		return
+	}
+	// only in the function under contract itself and in its closures (not in inlined callees)
+	if !fr.isTop && fr.fn.Parent() == nil {
 		return
 	}
 	for _, at := range s.FC.Ats {
